@@ -170,6 +170,11 @@ Proof.
 Qed.
 
 (* ---- symbol table: distinct names are always accepted ---- *)
+Lemma NoDup_app_remove_r {A} (l1 l2 : list A) : NoDup (l1 ++ l2) -> NoDup l1.
+Proof.
+  induction l1 as [|a l1 IH]; cbn; intro H; [constructor|]. inversion H as [|x l Hx Hl]; subst.
+  constructor; [|now apply IH]. intro Hin. apply Hx. apply in_or_app. now left.
+Qed.
 Lemma NoDup_app_remove_l {A} (l1 l2 : list A) : NoDup (l1 ++ l2) -> NoDup l2.
 Proof. induction l1 as [|a l1 IH]; cbn; intro H; [exact H|]. inversion H; subst. now apply IH. Qed.
 
@@ -180,15 +185,16 @@ Lemma has_key_cons {A} k k' (v : A) l :
   has_key k ((k', v) :: l) = String.eqb k k' || has_key k l.
 Proof. unfold has_key. cbn. destruct (String.eqb k k'); reflexivity. Qed.
 
-Lemma gather_nodes_complete ns : forall st,
+Lemma gather_nodes_complete0 ns : forall st,
   ikeys_sub st ->
   NoDup (rev (type_names ns) ++ map fst (st_structs st)) ->
   NoDup (rev (const_names ns) ++ st_consts st) ->
-  exists st', gather_nodes st ns = Ok st' /\ ikeys_sub st'.
+  exists st', gather_nodes_gen false st ns = Ok st' /\ ikeys_sub st'.
 Proof.
-  induction ns as [|n ns IH]; intros st HS N1 N2; cbn [gather_nodes].
+  induction ns as [|n ns IH]; intros st HS N1 N2; cbn [gather_nodes_gen].
   - eauto.
-  - destruct n as [p|c|s|i]; cbn [gather_node type_names const_names flat_map app rev] in *.
+  - unfold gather_node_gen. cbn [andb].
+    destruct n as [p|c|s|i]; cbn [gather_node0 type_names const_names flat_map app rev] in *.
     + cbn. apply IH; assumption.
     + fold (const_names ns) in N2. rewrite <- app_assoc in N2. cbn [app] in N2.
       destruct (mem_str (c_name c) (st_consts st)) eqn:EM.
@@ -209,15 +215,15 @@ Proof.
         destruct (String.eqb k (i_name i)); [reflexivity|]. cbn in *. now apply HS.
 Qed.
 
-Lemma gather_files_complete fs : forall st,
+Lemma gather_files_complete0 fs : forall st,
   ikeys_sub st ->
   NoDup (rev (flat_map (fun a => type_names (a_nodes a)) fs) ++ map fst (st_structs st)) ->
   NoDup (rev (flat_map (fun a => const_names (a_nodes a)) fs) ++ st_consts st) ->
-  exists st', gather_files st fs = Ok st'.
+  exists st', gather_files_gen false st fs = Ok st'.
 Proof.
-  induction fs as [|a fs IH]; intros st HS N1 N2; cbn [gather_files]; [eauto|].
+  induction fs as [|a fs IH]; intros st HS N1 N2; cbn [gather_files_gen]; [eauto|].
   cbn [flat_map] in N1, N2. rewrite rev_app_distr, <- app_assoc in N1, N2.
-  destruct (gather_nodes_complete (a_nodes a) st HS) as (st1 & G & HS1).
+  destruct (gather_nodes_complete0 (a_nodes a) st HS) as (st1 & G & HS1).
   - apply NoDup_app_remove_l in N1. exact N1.
   - apply NoDup_app_remove_l in N2. exact N2.
   - rewrite G. cbn.
@@ -225,18 +231,114 @@ Proof.
     { apply NoDup_app_remove_l in N1. apply NoDup_app_remove_l in N1. exact N1. }
     assert (D1 : NoDup (st_consts st)).
     { apply NoDup_app_remove_l in N2. apply NoDup_app_remove_l in N2. exact N2. }
-    destruct (gather_nodes_names _ _ _ G D0 D1) as (A & B & _ & _).
+    destruct (gather_nodes_names _ _ _ _ G D0 D1) as (A & B & _ & _).
     apply IH; [exact HS1 | rewrite A; exact N1 | rewrite B; exact N2].
 Qed.
 
-Theorem gather_complete files :
+Theorem gather_complete0 files :
   rule_uniq_types files = true -> rule_uniq_consts files = true ->
-  exists st, gather_files st_empty files = Ok st.
+  exists st, gather_files_gen false st_empty files = Ok st.
 Proof.
-  intros HT HC. apply gather_files_complete.
+  intros HT HC. apply gather_files_complete0.
   - intros k Hk. discriminate.
   - cbn. rewrite app_nil_r. apply NoDup_rev. eapply Permutation_NoDup.
     + apply Permutation_sym. apply all_type_names_perm.
     + apply nodup_str_NoDup. exact HT.
   - cbn. rewrite app_nil_r. apply NoDup_rev. rewrite const_names_eq. apply nodup_str_NoDup. exact HC.
 Qed.
+
+(* the tables only grow *)
+Lemma gather_node_mono b st n st' : gather_node_gen b st n = Ok st' ->
+  (forall k, In k (st_consts st) -> In k (st_consts st')) /\
+  (forall k, In k (map fst (st_structs st)) -> In k (map fst (st_structs st'))) /\
+  match n with
+  | NStruct s => In (s_name s) (map fst (st_structs st'))
+  | NIface i => In (i_name i) (map fst (st_structs st'))
+  | NConst c => In (c_name c) (st_consts st')
+  | NInclude _ => True
+  end.
+Proof.
+  unfold gather_node_gen. destruct (b && cross_kind st n); [discriminate|].
+  destruct n as [p|c|s|i]; cbn [gather_node0]; intro E.
+  - inversion E; subst. auto.
+  - destruct (mem_str _ _); inversion E; subst. cbn. auto.
+  - destruct (has_key _ _); inversion E; subst. cbn. auto.
+  - destruct (has_key (i_name i) (st_structs st)); try discriminate.
+    destruct (has_key (i_name i) (st_ifaces st)); inversion E; subst. cbn. auto.
+Qed.
+
+Lemma gather_nodes_mono b ns : forall st st', gather_nodes_gen b st ns = Ok st' ->
+  (forall k, In k (st_consts st) -> In k (st_consts st')) /\
+  (forall k, In k (map fst (st_structs st)) -> In k (map fst (st_structs st'))).
+Proof.
+  induction ns as [|n ns IH]; intros st st' H; cbn [gather_nodes_gen] in H; [inversion H; subst; auto|].
+  destruct (gather_node_gen b st n) as [st1| | |] eqn:E; cbn [obind] in H; try discriminate.
+  destruct (gather_node_mono _ _ _ _ E) as (A & B & _). destruct (IH _ _ H) as (A' & B'). split; auto.
+Qed.
+
+Lemma gather_files_mono b fs : forall st st', gather_files_gen b st fs = Ok st' ->
+  (forall k, In k (st_consts st) -> In k (st_consts st')) /\
+  (forall k, In k (map fst (st_structs st)) -> In k (map fst (st_structs st'))).
+Proof.
+  induction fs as [|a fs IH]; intros st st' H; cbn [gather_files_gen] in H; [inversion H; subst; auto|].
+  destruct (gather_nodes_gen b st (a_nodes a)) as [st1| | |] eqn:E; cbn [obind] in H; try discriminate.
+  destruct (gather_nodes_mono _ _ _ _ E) as (A & B). destruct (IH _ _ H) as (A' & B'). split; auto.
+Qed.
+
+(* when the final tables are disjoint the cross-kind check never fires *)
+Lemma gather_nodes_upgrade b ns : forall st st', gather_nodes_gen false st ns = Ok st' ->
+  tables_disjoint st' -> gather_nodes_gen b st ns = Ok st'.
+Proof.
+  induction ns as [|n ns IH]; intros st st' H D; cbn [gather_nodes_gen] in *; [exact H|].
+  destruct (gather_node_gen false st n) as [st1| | |] eqn:E; cbn [obind] in H; try discriminate.
+  destruct (gather_node_mono _ _ _ _ E) as (A & B & C).
+  destruct (gather_nodes_mono _ _ _ _ H) as (A' & B').
+  assert (X : cross_kind st n = false).
+  { destruct (cross_kind st n) eqn:EX; [exfalso | reflexivity].
+    destruct n as [p|c|s|i]; cbn [cross_kind] in EX; try discriminate.
+    - apply has_key_In in EX. apply (D (c_name c)); auto.
+    - apply mem_str_In in EX. apply (D (s_name s)); auto.
+    - apply mem_str_In in EX. apply (D (i_name i)); auto. }
+  unfold gather_node_gen in *. rewrite X, andb_false_r. cbn [andb] in E. rewrite E. cbn [obind].
+  now apply IH.
+Qed.
+
+Lemma gather_files_upgrade b fs : forall st st', gather_files_gen false st fs = Ok st' ->
+  tables_disjoint st' -> gather_files_gen b st fs = Ok st'.
+Proof.
+  induction fs as [|a fs IH]; intros st st' H D; cbn [gather_files_gen] in *; [exact H|].
+  destruct (gather_nodes_gen false st (a_nodes a)) as [st1| | |] eqn:E; cbn [obind] in H; try discriminate.
+  destruct (gather_files_mono _ _ _ _ H) as (A' & B').
+  rewrite (gather_nodes_upgrade b _ _ _ E); [cbn [obind]; now apply IH|].
+  intros k Hk Hin. apply (D k); auto.
+Qed.
+
+(* names unique over types and constants together: the symbol table is built, with either
+   variant of the table *)
+Theorem gather_complete_gen b files :
+  rule_uniq_toplevel files = true -> exists st, gather_files_gen b st_empty files = Ok st.
+Proof.
+  intro HU. apply nodup_str_NoDup in HU. unfold rule_uniq_toplevel in HU. rewrite app_assoc in HU.
+  assert (HT : rule_uniq_types files = true).
+  { apply nodup_str_NoDup. unfold rule_uniq_types. now apply NoDup_app_remove_r in HU. }
+  assert (HC : rule_uniq_consts files = true).
+  { apply nodup_str_NoDup. unfold rule_uniq_consts. now apply NoDup_app_remove_l in HU. }
+  destruct (gather_complete0 files HT HC) as (st & G). exists st.
+  apply gather_files_upgrade; [exact G|].
+  destruct (gather_files_names _ _ _ _ G (NoDup_nil _) (NoDup_nil _)) as (A & B & _ & _).
+  cbn in A, B. rewrite app_nil_r in A, B.
+  intros k Hk Hin. rewrite B in Hk. rewrite A in Hin. apply in_rev in Hk. apply in_rev in Hin.
+  rewrite const_names_eq in Hk.
+  assert (Hin' : In k (map s_name (all_structs files) ++ map i_name (all_ifaces9 files))).
+  { eapply Permutation_in; [apply all_type_names_perm | exact Hin]. }
+  revert HU Hin' Hk. generalize (map s_name (all_structs files) ++ map i_name (all_ifaces9 files)) as l1.
+  generalize (map c_name (all_consts files)) as l2. clear.
+  intros l2 l1 N H1 H2. induction l1 as [|x l1 IH]; [destruct H1|].
+  cbn in N. inversion N as [|y l Hy Hl]; subst. destruct H1 as [->|H1].
+  - apply Hy. apply in_or_app. now right.
+  - now apply IH.
+Qed.
+
+Theorem gather_complete files :
+  rule_uniq_toplevel files = true -> exists st, gather_files st_empty files = Ok st.
+Proof. apply gather_complete_gen. Qed.
